@@ -1155,20 +1155,27 @@ func ruleLiteralBinOpWritesBack(r *Run) {
 		o.Fail("-", "method not found")
 		return
 	}
-	step := fn.Params[1]
+	var step ssa.Value = fn.Params[1]
 	isStepSamples := func(addr ssa.Value) bool {
 		f, base, ok := fieldNameOf(addr)
-		return ok && f == "Samples" && (base == ssa.Value(step) || originValue(base) == ssa.Value(step))
+		return ok && f == "Samples" && (base == step || originValue(base) == step)
 	}
 	var opCall *ssa.Call
-	for _, c := range callsIn(fn) {
-		call, ok := c.(*ssa.Call)
-		if !ok || call.Call.IsInvoke() || staticCallee(call) != nil {
-			continue
+	for _, g := range funcGroup(fn) {
+		for _, c := range callsIn(g) {
+			call, ok := c.(*ssa.Call)
+			if !ok || call.Call.IsInvoke() || staticCallee(call) != nil {
+				continue
+			}
+			if f, _, ok := loadOfField(call.Call.Value); ok && f == "op" {
+				opCall = call
+			}
 		}
-		if f, _, ok := loadOfField(call.Call.Value); ok && f == "op" {
-			opCall = call
-		}
+	}
+	if opCall != nil && opCall.Parent() != fn && len(opCall.Parent().Params) == 2 {
+		// the per-sample work lives in a helper with the same (iterator, step) parameters
+		fn = opCall.Parent()
+		step = fn.Params[1]
 	}
 	if opCall == nil {
 		o.Undecide(r.pos(fn.Pos()), "the call of the sample operation (i.op) was not found")
@@ -1500,5 +1507,599 @@ func rulePatternLiteralAnchored(r *Run) {
 	}
 	if good {
 		o.OK("%d prefix test(s) on the current part; searches only on the next part", nPrefix).At(r.pos(fn.Pos()))
+	}
+}
+
+// ruleBuildDescendsOneLevel (PV-ROLE): the step-iterator builder evaluates each node from the
+// iterators of its own operands: the expression handed to a recursive build call is a field of
+// the node being built, read directly (not a value chosen by looking further down the tree).
+func ruleBuildDescendsOneLevel(r *Run) {
+	p := r.P
+	o := r.Ob("PV-ROLE", "logqlmetric.build recursion", "every recursive build call is given an operand field (Expr, Left, Right) of the node being built: no level of the tree is skipped or replaced")
+	bf := p.Func(metricPkg, "build")
+	if bf == nil {
+		o.Fail("-", "build not found")
+		return
+	}
+	grp := funcGroup(bf)
+	n, good := 0, true
+	for _, g := range grp {
+		for _, c := range callsIn(g) {
+			call, ok := c.(*ssa.Call)
+			if !ok || staticCallee(call) != bf || len(call.Call.Args) == 0 {
+				continue
+			}
+			if g == bf && false {
+				continue
+			}
+			arg := call.Call.Args[0]
+			// the entry call from Build/helpers with the caller's own parameter is not a descent
+			if _, isParam := originValueIn(unspill(arg), grp).(*ssa.Parameter); isParam {
+				continue
+			}
+			n++
+			v := unspill(arg)
+			if mi, ok := v.(*ssa.MakeInterface); ok {
+				v = unspill(mi.X)
+			}
+			if _, isPhi := v.(*ssa.Phi); isPhi {
+				good = false
+				o.Fail(r.pos(call.Pos()), "build is given %s: the operand is chosen by looking further down the tree, a level can be skipped", describe(v, 0))
+				continue
+			}
+			f, base, ok := loadOfField(v)
+			if !ok {
+				good = false
+				o.Fail(r.pos(call.Pos()), "build is given %s, not an operand field of the node being built", describe(v, 0))
+				continue
+			}
+			// the node: a type assertion (the switch's binding), possibly through a helper's parameter
+			root := originValueIn(unspill(base), grp)
+			switch root.(type) {
+			case *ssa.TypeAssert, *ssa.Parameter, *ssa.Extract:
+			default:
+				if _, isPhi := unspill(base).(*ssa.Phi); isPhi {
+					good = false
+					o.Fail(r.pos(call.Pos()), "build is given field %s of %s: the node whose operand is built is chosen in a loop", f, describe(base, 0))
+				}
+			}
+		}
+	}
+	if n < 4 {
+		o.Fail(r.pos(bf.Pos()), "only %d recursive build call(s) found", n)
+		return
+	}
+	if good {
+		o.OK("%d recursive calls, each on an operand field of the current node", n).At(r.pos(bf.Pos()))
+	}
+}
+
+// ruleLiteralOperandPerSample (PV-PAIR): in a vector-scalar operation the scalar operand of each
+// sample carries that sample's own label set.
+func ruleLiteralOperandPerSample(r *Run) {
+	p := r.P
+	o := r.Ob("PV-PAIR", "logqlmetric.(*literalBinOpIterator).Next literal operand", "the scalar operand is built for each sample with that sample's label set (the result of an operation takes its labels from its left operand)")
+	fn := p.Method(metricPkg, "literalBinOpIterator", "Next")
+	if fn == nil {
+		o.Fail("-", "method not found")
+		return
+	}
+	var loop *rangeLoop
+	for _, l := range rangeIndexLoops(fn) {
+		if f, _, ok := loadOfField(l.X); ok && f == "Samples" {
+			loop = l
+		}
+	}
+	if loop == nil {
+		o.Undecide(r.pos(fn.Pos()), "no loop over the step's samples")
+		return
+	}
+	n, good := 0, true
+	allInstrs(fn, func(in ssa.Instruction) {
+		st, ok := in.(*ssa.Store)
+		if !ok {
+			return
+		}
+		f, base, ok := fieldNameOf(st.Addr)
+		if !ok || f != "Set" || typeKey(derefType(base.Type())) != "Sample" {
+			return
+		}
+		// is this the literal operand? its Data is the iterator's value
+		al, ok := base.(*ssa.Alloc)
+		if !ok {
+			return
+		}
+		isLit := false
+		for _, ref := range *al.Referrers() {
+			if fa, ok := ref.(*ssa.FieldAddr); ok {
+				if nm, _, _ := fieldNameOf(fa); nm == "Data" {
+					for _, s2 := range storesTo(fa) {
+						if lf, _, ok := loadOfField(s2.Val); ok && lf == "value" {
+							isLit = true
+						}
+					}
+				}
+			}
+		}
+		if !isLit {
+			return
+		}
+		n++
+		sf, sbase, ok := loadOfField(st.Val)
+		elem := false
+		if ok && sf == "Set" {
+			sb := unspill(sbase)
+			if a2, isA := sb.(*ssa.Alloc); isA {
+				for _, s3 := range storesTo(a2) {
+					if u, ok := s3.Val.(*ssa.UnOp); ok && isIndexOf(u.X, loop) {
+						elem = true
+					}
+				}
+			}
+			if u, isU := sb.(*ssa.UnOp); isU && isIndexOf(u.X, loop) {
+				elem = true
+			}
+			if isIndexOf(sb, loop) {
+				elem = true
+			}
+		}
+		if !elem || !loop.Blocks[st.Block()] {
+			good = false
+			o.Fail(r.pos(st.Pos()), "the scalar operand's label set is %s, not the label set of the sample it is combined with", describe(st.Val, 0))
+		}
+	})
+	if n == 0 {
+		o.Undecide(r.pos(fn.Pos()), "the construction of the scalar operand (Sample{Data: i.value, Set: ...}) was not found")
+		return
+	}
+	if good {
+		o.OK("Sample{Data: i.value, Set: sample.Set} per ranged sample").At(r.pos(fn.Pos()))
+	}
+}
+
+// ruleLimitDefaultUnlimited (PV-CONST): with default flags every entry of the window is
+// evaluated and rendered: the --limit flag defaults to a non-positive value (no limit).
+func ruleLimitDefaultUnlimited(r *Run) {
+	p := r.P
+	o := r.Ob("PV-CONST", "main --limit default", "the --limit flag defaults to a non-positive value (unlimited): a result is not cut unless the user asks for it")
+	n, good := 0, true
+	for _, fn := range p.SrcFuncs() {
+		if pkgPathOf(fn) != modPath+"/"+cmdPkg {
+			continue
+		}
+		for _, c := range callsIn(fn) {
+			if pk, nm := calleePkgName(c); !strings.HasSuffix(pk, "spf13/pflag") || !strings.HasPrefix(nm, "Int") {
+				continue
+			}
+			args := c.Common().Args
+			isLimit := false
+			for _, a := range args {
+				if s, ok := constStr(a); ok && s == "limit" {
+					isLimit = true
+				}
+			}
+			if !isLimit {
+				continue
+			}
+			n++
+			found := false
+			for _, a := range args {
+				if k, ok := constInt(a); ok {
+					if bt, isB := a.Type().Underlying().(*types.Basic); isB && bt.Info()&types.IsInteger != 0 {
+						found = true
+						if k > 0 {
+							good = false
+							o.Fail(r.pos(c.Pos()), "--limit defaults to %d: with default flags a larger result is silently cut", k)
+						}
+					}
+				}
+			}
+			if !found {
+				good = false
+				o.Undecide(r.pos(c.Pos()), "the default of --limit is not a constant")
+			}
+		}
+	}
+	if n == 0 {
+		o.Fail("-", "no integer flag named limit found")
+		return
+	}
+	if good {
+		o.OK("--limit defaults to a non-positive constant")
+	}
+}
+
+// ruleComparatorsNoSubtraction (PV-CMP): a comparator handed to a sort is a real three-way
+// comparison: it never returns a converted difference of its operands (which wraps for unsigned
+// keys and overflows for large values, making the order - and what a sort does with it -
+// inconsistent).
+func ruleComparatorsNoSubtraction(r *Run, rels []string) {
+	p := r.P
+	o := r.Ob("PV-CMP", "sort comparators", "no comparator given to slices.SortFunc/SortStableFunc/sort.Slice returns a converted difference of its operands")
+	n, good := 0, true
+	for _, fn := range p.SrcFuncs() {
+		in := false
+		for _, rel := range rels {
+			if pkgPathOf(fn) == modPath+"/"+rel {
+				in = true
+			}
+		}
+		if !in {
+			continue
+		}
+		for _, c := range callsIn(fn) {
+			pk, nm := calleePkgName(c)
+			if !((pk == "slices" || strings.HasSuffix(pk, "exp/slices")) && (nm == "SortFunc" || nm == "SortStableFunc" || nm == "BinarySearchFunc" || nm == "MinFunc" || nm == "MaxFunc")) && !(pk == "sort" && (nm == "Slice" || nm == "SliceStable")) {
+				continue
+			}
+			args := c.Common().Args
+			cmpFn := funcOfValue(args[len(args)-1])
+			if cmpFn == nil {
+				continue
+			}
+			n++
+			for _, ret := range returnsOf(cmpFn) {
+				for _, lv := range phiLeaves(ret.Results[0]) {
+					v := lv
+					if cv, ok := v.(*ssa.Convert); ok {
+						v = cv.X
+					}
+					if b, ok := v.(*ssa.BinOp); ok && b.Op == token.SUB {
+						good = false
+						o.Fail(r.pos(ret.Pos()), "the comparator %s returns a difference (%s): it wraps or overflows, so the order is not a consistent total order", shortFuncName(cmpFn), describe(lv, 0))
+					}
+				}
+			}
+		}
+	}
+	if n == 0 {
+		o.Fail("-", "no sort with a comparator found")
+		return
+	}
+	if good {
+		o.OK("%d comparator(s), none returns a difference", n)
+	}
+}
+
+// ruleTimestampIntegerSpellings (PV-API): the integer spellings of --start/--end (unix seconds,
+// unix nanoseconds) are read as integers: the value handed to time.Unix alone (the other
+// argument a constant zero) comes from strconv.ParseInt, never through a floating-point number.
+func ruleTimestampIntegerSpellings(r *Run) {
+	p := r.P
+	o := r.Ob("PV-API", "main.parseTimestamp integer spellings", "unix seconds and unix nanoseconds are parsed with strconv.ParseInt and reach time.Unix unchanged: no float64 on the way (a nanosecond count does not fit its mantissa)")
+	fn := p.Func(cmdPkg, "parseTimestamp")
+	if fn == nil {
+		o.Fail("-", "parseTimestamp not found")
+		return
+	}
+	n, good := 0, true
+	for _, g := range pkgClosure(fn) {
+		for _, c := range callsIn(g) {
+			if pk, nm := calleePkgName(c); pk != "time" || nm != "Unix" || len(c.Common().Args) != 2 || c.Common().Signature().Recv() != nil {
+				continue
+			}
+			args := c.Common().Args
+			var v ssa.Value
+			if k, ok := constInt(args[0]); ok && k == 0 {
+				v = args[1]
+			} else if k, ok := constInt(args[1]); ok && k == 0 {
+				v = args[0]
+			} else {
+				continue // seconds and fraction: the decimal spelling
+			}
+			n++
+			// backward: conversions only, down to an extract of ParseInt
+			cur := unspill(v)
+			viaFloat := false
+			for d := 0; d < 8; d++ {
+				cv, ok := cur.(*ssa.Convert)
+				if !ok {
+					break
+				}
+				if bt, isB := cv.X.Type().Underlying().(*types.Basic); isB && bt.Info()&types.IsFloat != 0 {
+					viaFloat = true
+				}
+				cur = unspill(cv.X)
+			}
+			cur = originValueIn(cur, pkgClosure(fn))
+			src, _, isEx := extractOf(cur)
+			okSrc := false
+			if isEx {
+				if pk, nm := calleePkgName(src); pk == "strconv" && (nm == "ParseInt" || nm == "Atoi") {
+					okSrc = true
+				}
+			}
+			if viaFloat || !okSrc {
+				good = false
+				o.Fail(r.pos(c.Pos()), "time.Unix is given %s: the integer spelling does not come straight from strconv.ParseInt", describe(v, 0))
+			}
+		}
+	}
+	if n < 2 {
+		o.Fail(r.pos(fn.Pos()), "only %d integer-spelling time.Unix call(s) found (seconds and nanoseconds expected)", n)
+		return
+	}
+	if good {
+		o.OK("%d call(s): time.Unix(ParseInt(value), 0) / time.Unix(0, ParseInt(value))", n).At(r.pos(fn.Pos()))
+	}
+}
+
+// ruleSinceOnlyPromDuration (PV-API): the --since duration is what model.ParseDuration returns
+// (which admits no sign and no fraction): no other parser can supply it.
+func ruleSinceOnlyPromDuration(r *Run) {
+	p := r.P
+	o := r.Ob("PV-API", "main.parseTimeRange since source", "the --since duration comes from model.ParseDuration of the flag's text or from the constant default: a negative or fractional-seconds spelling cannot produce it")
+	fn := p.Func(cmdPkg, "parseTimeRange")
+	if fn == nil {
+		o.Fail("-", "parseTimeRange not found")
+		return
+	}
+	// since: the operand of the negation handed to Time.Add
+	var since ssa.Value
+	allInstrs(fn, func(in ssa.Instruction) {
+		u, ok := in.(*ssa.UnOp)
+		if !ok || u.Op != token.SUB || typeKey(u.Type()) != "Duration" {
+			return
+		}
+		for _, ref := range *u.Referrers() {
+			if c, ok := ref.(*ssa.Call); ok {
+				if pk, nm := calleePkgName(c); pk == "time" && nm == "Add" {
+					since = u.X
+				}
+			}
+		}
+	})
+	if since == nil {
+		o.Undecide(r.pos(fn.Pos()), "the negated duration added to the end time was not found")
+		return
+	}
+	good := true
+	nSrc := 0
+	seen := map[ssa.Value]bool{}
+	var back func(v ssa.Value, d int)
+	back = func(v ssa.Value, d int) {
+		v = unspill(v)
+		if seen[v] || d > 12 {
+			return
+		}
+		seen[v] = true
+		switch x := v.(type) {
+		case *ssa.Const:
+		case *ssa.Phi:
+			for _, e := range x.Edges {
+				back(e, d+1)
+			}
+		case *ssa.Convert:
+			back(x.X, d+1)
+		case *ssa.ChangeType:
+			back(x.X, d+1)
+		case *ssa.UnOp:
+			if al, ok := x.X.(*ssa.Alloc); ok && x.Op == token.MUL {
+				for _, st := range storesTo(al) {
+					back(st.Val, d+1)
+				}
+				return
+			}
+			good = false
+			o.Fail(r.pos(x.Pos()), "--since can be %s", describe(x, 0))
+		case *ssa.Extract:
+			c, ok := x.Tuple.(*ssa.Call)
+			if !ok {
+				good = false
+				return
+			}
+			if pk, nm := calleePkgName(c); strings.HasSuffix(pk, "prometheus/common/model") && nm == "ParseDuration" {
+				nSrc++
+				return
+			}
+			callee := staticCallee(c)
+			if callee != nil && callee.Blocks != nil && pkgOfFunc(callee) == pkgOfFunc(fn) {
+				for _, ret := range returnsOf(callee) {
+					if x.Index < len(ret.Results) {
+						back(ret.Results[x.Index], d+1)
+					}
+				}
+				return
+			}
+			good = false
+			o.Fail(r.pos(c.Pos()), "--since can come from %s, which is not model.ParseDuration", calleeName(c))
+		case *ssa.BinOp:
+			good = false
+			o.Fail(r.pos(x.Pos()), "--since can be computed as %s (not the duration model.ParseDuration returned)", describe(x, 0))
+		case *ssa.Call:
+			good = false
+			o.Fail(r.pos(x.Pos()), "--since can come from %s, which is not model.ParseDuration", calleeName(x))
+		default:
+			good = false
+			o.Fail(r.pos(fn.Pos()), "--since can be %s", describe(v, 0))
+		}
+	}
+	back(since, 0)
+	if nSrc == 0 && good {
+		good = false
+		o.Fail(r.pos(fn.Pos()), "model.ParseDuration is not among the sources of --since")
+	}
+	if good {
+		o.OK("sources: the constant default and model.ParseDuration").At(r.pos(fn.Pos()))
+	}
+}
+
+// ruleOneInnerStepPerStep (PV-ONCE): an iterator that transforms the steps of an inner step
+// iterator consumes exactly one inner step per outer step: the inner Next is not called in a
+// loop (skipping "empty" steps misaligns the grid of the two sides of a binary operation and
+// never ends on the unbounded grid of an instant vector()).
+func ruleOneInnerStepPerStep(r *Run) {
+	p := r.P
+	o := r.Ob("PV-ONCE", "logqlmetric step transformers", "Next of a step iterator that wraps step iterators calls the inner Next outside any loop: one inner step per outer step, whatever the step contains")
+	n, good := 0, true
+	for _, fn := range p.SrcFuncs() {
+		if pkgPathOf(fn) != modPath+"/"+metricPkg || fn.Signature.Recv() == nil || fn.Name() != "Next" || len(fn.Params) != 2 {
+			continue
+		}
+		if typeKey(derefType(fn.Params[1].Type())) != "Step" {
+			continue
+		}
+		for _, g := range funcGroup(fn) {
+			for _, c := range callsIn(g) {
+				call, ok := c.(*ssa.Call)
+				if !ok || !call.Call.IsInvoke() || call.Call.Method.Name() != "Next" || len(call.Call.Args) != 1 {
+					continue
+				}
+				if typeKey(derefType(call.Call.Args[0].Type())) != "Step" {
+					continue
+				}
+				n++
+				inLoop := false
+				for _, sc := range call.Block().Succs {
+					if blockReaches(sc, call.Block()) {
+						inLoop = true
+					}
+				}
+				// a helper that holds the call, itself called in a loop of Next
+				if g != fn {
+					for _, c2 := range callsIn(fn) {
+						if staticCallee(c2) == g {
+							for _, sc := range c2.Block().Succs {
+								if blockReaches(sc, c2.Block()) {
+									inLoop = true
+								}
+							}
+						}
+					}
+				}
+				if inLoop {
+					good = false
+					o.Fail(r.pos(call.Pos()), "%s calls the inner Next in a loop: several inner steps can be consumed for one outer step", shortFuncName(fn))
+				}
+			}
+		}
+	}
+	if n < 4 {
+		o.Fail("-", "only %d inner step reads found", n)
+		return
+	}
+	if good {
+		o.OK("%d inner step read(s), none in a loop", n)
+	}
+}
+
+// ruleConstIndexGuarded (PF-IDX): in the Docker backend a slice the daemon filled is indexed with
+// a constant (or sliced from a constant) only where its length is known to be large enough
+// (a listed container may have no name; a selector may match no container).
+func ruleConstIndexGuarded(r *Run, rels []string, floor int) {
+	p := r.P
+	o := r.Ob("PF-IDX", "constant indices "+strings.Join(rels, ","), "x[k] / x[k:] with constant k on a slice is dominated by a length test that makes it safe (len(x) > k, len(x) == n with n > k, ...)")
+	n, good := 0, true
+	for _, fn := range p.SrcFuncs() {
+		in := false
+		for _, rel := range rels {
+			if pkgPathOf(fn) == modPath+"/"+rel {
+				in = true
+			}
+		}
+		if !in {
+			continue
+		}
+		check := func(at ssa.Instruction, x ssa.Value, k int64) {
+			if _, isSlice := x.Type().Underlying().(*types.Slice); !isSlice {
+				return
+			}
+			// literals of known length
+			if sl, ok := x.(*ssa.Slice); ok {
+				if al, ok := sl.X.(*ssa.Alloc); ok {
+					if arr, ok := derefType(al.Type()).Underlying().(*types.Array); ok && arr.Len() > k {
+						return
+					}
+				}
+			}
+			n++
+			safe := false
+			for _, f := range factsAt(at.Block()) {
+				b, ok := f.Cond.(*ssa.BinOp)
+				if !ok {
+					continue
+				}
+				lx, c, op := b.X, b.Y, b.Op
+				if _, isC := lx.(*ssa.Const); isC {
+					lx, c = c, lx
+					switch op {
+					case token.LSS:
+						op = token.GTR
+					case token.LEQ:
+						op = token.GEQ
+					case token.GTR:
+						op = token.LSS
+					case token.GEQ:
+						op = token.LEQ
+					}
+				}
+				lc, ok := lx.(*ssa.Call)
+				if !ok {
+					continue
+				}
+				if bi, ok := lc.Call.Value.(*ssa.Builtin); !ok || bi.Name() != "len" || len(lc.Call.Args) != 1 {
+					continue
+				}
+				if lc.Call.Args[0] != x && describe(lc.Call.Args[0], 0) != describe(x, 0) {
+					continue
+				}
+				cv, ok := constInt(c)
+				if !ok {
+					continue
+				}
+				// the fact as a lower bound on len
+				if !f.Truth {
+					switch op {
+					case token.LSS:
+						op = token.GEQ
+					case token.LEQ:
+						op = token.GTR
+					case token.EQL:
+						op = token.NEQ
+					case token.NEQ:
+						op = token.EQL
+					case token.GTR:
+						op = token.LEQ
+					case token.GEQ:
+						op = token.LSS
+					}
+				}
+				switch op {
+				case token.GTR:
+					safe = safe || cv >= k
+				case token.GEQ:
+					safe = safe || cv > k
+				case token.EQL:
+					safe = safe || cv > k
+				case token.NEQ:
+					safe = safe || (cv == 0 && k == 0)
+				}
+			}
+			if !safe {
+				good = false
+				o.Fail(r.pos(at.Pos()), "%s: %s is indexed/sliced at constant %d without a dominating length test", shortFuncName(fn), describe(x, 0), k)
+			}
+		}
+		allInstrs(fn, func(in ssa.Instruction) {
+			switch x := in.(type) {
+			case *ssa.IndexAddr:
+				if k, ok := constInt(x.Index); ok {
+					check(x, x.X, k)
+				}
+			case *ssa.Slice:
+				if x.Low != nil {
+					if k, ok := constInt(x.Low); ok && k > 0 {
+						check(x, x.X, k-1)
+					}
+				}
+			}
+		})
+	}
+	if n < floor {
+		o.Fail("-", "only %d constant-index site(s) found, floor %d", n, floor)
+		return
+	}
+	if good {
+		o.OK("%d constant-index site(s), all under a sufficient length test", n)
 	}
 }
